@@ -67,6 +67,7 @@ type MemSpec struct {
 	Early bool     `json:"early,omitempty"` // effect at arrival instead of anywhere in [arrival, response]
 	VHold [][2]int `json:"vhold,omitempty"` // cycle windows in which the vector memory side takes no request
 	SHold [][2]int `json:"shold,omitempty"` // same for the scalar memory side
+	SRate int      `json:"srate,omitempty"` // > 1: the scalar memory side accepts one request every SRate cycles (sustained back-pressure on ToScalarMem)
 }
 
 // Scenario is one case.
@@ -660,7 +661,10 @@ func (r *runner) runTiming(ce *caseEnv, idx int, ref *memImage, paths map[int][]
 	lastRsp := map[string]int{}
 	seq := 0
 	accept := func(q string, port sim.Port, cyc int) {
-		for {
+		for n := 0; ; n++ {
+			if q == "s" && sc.Mem.SRate > 1 && (n > 0 || cyc%sc.Mem.SRate != 0) {
+				return
+			}
 			m := port.RetrieveOutgoing()
 			if m == nil {
 				return
@@ -816,7 +820,11 @@ func (r *runner) runTiming(ce *caseEnv, idx int, ref *memImage, paths map[int][]
 			upd(holdEndIn(sc.Mem.VHold, cyc))
 		}
 		if u.ToScalarMem.PeekOutgoing() != nil {
-			upd(holdEndIn(sc.Mem.SHold, cyc))
+			c := holdEndIn(sc.Mem.SHold, cyc)
+			if k := sc.Mem.SRate; k > 1 && c%k != 0 {
+				c += k - c%k
+			}
+			upd(c)
 		}
 		if next < 0 {
 			break
